@@ -30,7 +30,7 @@ def build(c):
 
 def _outcome(fn):
     from pyasn1 import error
-    st, r = R.guarded(fn, seconds=5)
+    st, r = R.guarded(fn, seconds=5, retry=True)      # every call here is repeatable: a timeout counts only if it repeats
     if st == 'ok':
         return 'ok', r
     if isinstance(r, error.PyAsn1Error):
